@@ -101,6 +101,14 @@ def classify_dynamic(ctx, data, find, pkg, name, mode, out):
     return False
 
 
+def import_error(data, find, ie):
+    """An import of the tree failed in a real interpreter (same key as the model's ImportFails / UseFails)."""
+    mod = il.mod_of_path(data, ie["where"][0]) if ie.get("where") else ie["entry"]
+    name = (ie["on"] + "." if ie.get("on") else "") + (ie.get("name") or "")
+    find.add("ImportsSucceed:%s:%s:%s" % (mod, ie["cls"], name),
+             observed=["import %s -> %s: %s" % (ie["entry"], ie["cls"], ie["msg"])])
+
+
 def run(ctx):
     rnd = random.Random(ctx.seed)
     tag = "thorough" if ctx.thorough else "quick"
@@ -188,10 +196,7 @@ def run(ctx):
         rec = ready.get(key)
         ctx.case(["import", es], nontrivial=es != ["lena"])
         if "import_error" in probe:
-            ie = probe["import_error"]
-            mod = il.mod_of_path(data, ie["where"][0]) if ie.get("where") else ie["entry"]
-            find.add("ImportsSucceed:%s:%s:%s" % (mod, ie["cls"], ie.get("name") or ""),
-                     observed=["import %s -> %s: %s" % (ie["entry"], ie["cls"], ie["msg"])])
+            import_error(data, find, probe["import_error"])
             if rec is not None:
                 raise core.MachineryError("model predicts that importing %s succeeds, the interpreter raised %s: %s"
                                           % (es, ie["cls"], ie["msg"]))
@@ -211,7 +216,9 @@ def run(ctx):
                          observed=["from %s import * -> %s: %s" % (e, st["cls"], st["msg"])])
             elif st["all"] is not None and st["bound"] != st["all"]:
                 find.add("AllAdvertised:%s:star-binds-other-names" % e, bound=st["bound"], advertised=st["all"])
-    ctx.sample({"model_prediction": {"entries": lists[0], "order": ready[tuple(lists[0])]["order"][:12]}})
+    for key in sorted(ready, key=lambda k: (k[0] not in subs or len(k) > 1, k))[:1]:
+        ctx.sample({"model_prediction": {"entries": list(key), "sys_modules_order": ready[key]["order"][:14],
+                                         "namespace_of_" + key[0]: sorted(ready[key]["mods"][key[0]])[:40]}})
 
     # ------------------------------------------------------------------ smoke table: only X imported vs everything
     jobs = []
@@ -268,9 +275,7 @@ def run(ctx):
         p = rp[("rand", k)]
         ctx.case(["import-sequence", p["events"][0]["entries"]])
         if "import_error" in p:
-            ie = p["import_error"]
-            find.add("ImportsSucceed:%s:%s:%s" % (ie["entry"], ie["cls"], ie.get("name") or ""),
-                     observed=["import %s -> %s: %s" % (ie["entry"], ie["cls"], ie["msg"])])
+            import_error(data, find, p["import_error"])
         traces.append(p["events"])
     flat = [e for t in traces for e in t]
     tracemod = os.path.join(ctx.workdir, "Imports_trace.tla")
